@@ -33,6 +33,7 @@ def load_known(pid):
 def _shard_main(args):
     modname, tier, seed, k, nshards, known_sigs, scale = args
     warnings.simplefilter("ignore")
+    ctx = None
     try:
         sys.setrecursionlimit(1000)
         core.assert_repo()
@@ -41,6 +42,11 @@ def _shard_main(args):
         module.shard(ctx)
         return ctx.acc.export()
     except HarnessError as e:
+        if ctx is not None and ctx.acc.failures:
+            # what this shard had found before the machinery failed still stands
+            out = ctx.acc.export()
+            out["harness_errors"] = list(out.get("harness_errors", [])) + [str(e)]
+            return out
         return dict(harness_error=str(e))
     except BaseException:  # noqa
         return dict(harness_error=traceback.format_exc())
@@ -139,9 +145,15 @@ def main(argv=None):
                 outs = pool.map(_shard_main, jobs, chunksize=1)
         herr = [o["harness_error"] for o in outs if "harness_error" in o]
         herr += [e for o in outs if "harness_error" not in o for e in o["harness_errors"]]
-        if herr:
+        found = any(o.get("failures") for o in outs if "harness_error" not in o)
+        if herr and not found:
             print("HARNESS-ERROR property=%s\n%s" % (pid, herr[0]), file=sys.stderr)
             return 2
+        if herr:
+            # a violation found by one shard stands although the machinery failed in another; no evidence is written
+            print("HARNESS-ERROR (in %d shard(s), violations found elsewhere are reported) property=%s\n%s" % (len(herr), pid, herr[0]), file=sys.stderr)
+            outs = [o for o in outs if "harness_error" not in o]
+            a.no_evidence = True
 
         import collections
         evaluations = regress_n
